@@ -129,14 +129,16 @@ theorem sum_range_ite_lt (c N : ℕ) (h : c ≤ N) (w : ℚ) :
 
 /-- number of grid points `k·2⁻²⁴` (`0 ≤ k < 2²⁴`) strictly below the `f32` with bits `rate`:
     `⌈rate · 2²⁴⌉` clipped to `[0, 2²⁴]` -/
-def cutoff (rate : Nat) : Nat :=
-  match F32.decode rate with
-  | .fin s => if s ≤ 0 then 0 else min ((s.toNat + 2 ^ 125 - 1) / 2 ^ 125) (2 ^ 24)
-  | .inf false => 2 ^ 24
-  | _ => 0
+def cutoff (rate : Nat) : Nat := F32.cutoff rate
+
+theorem cutoff_def (rate : Nat) : cutoff rate =
+    match F32.decode rate with
+    | .fin s => if s ≤ 0 then 0 else min ((s.toNat + 2 ^ 125 - 1) / 2 ^ 125) (2 ^ 24)
+    | .inf false => 2 ^ 24
+    | _ => 0 := rfl
 
 theorem cutoff_le (rate : Nat) : cutoff rate ≤ 2 ^ 24 := by
-  unfold cutoff
+  rw [cutoff_def]
   split
   · split
     · omega
@@ -145,7 +147,8 @@ theorem cutoff_le (rate : Nat) : cutoff rate ≤ 2 ^ 24 := by
   · omega
 
 theorem flipsAt_eq (rate k : Nat) (hk : k < 2 ^ 24) : flipsAt rate k = decide (k < cutoff rate) := by
-  unfold flipsAt cutoff
+  unfold flipsAt
+  rw [cutoff_def]
   cases hd : F32.decode rate with
   | nan => simp [F32.Val.lt]
   | inf neg =>
